@@ -1,3 +1,44 @@
-From Oal Require Import Tag.
-Theorem C12_placeholder : True. Proof. exact I. Qed.
-Print Assumptions C12_placeholder.
+(** Property C12 — parser memoisation is invisible and keeps parsing linear.
+
+    Proved here: for every grammar of the embedding whose memo tags determine their bodies,
+    every token list and every fuel, whatever the memoising interpreter (memo table keyed by
+    (cursor, tag), failures cached too) returns is what the plain interpreter returns
+    ([memo_transparent]), and for the oal grammar in particular. The model interpreters agree
+    with the real parser on trees, end cursors and even on the reads / hits / cache-size
+    counters (tie). Not proved (measured by the monitor, and said so): the linear bound on the
+    work, and that the arena-based tree of grammar.rs (where re-appending a cached node
+    detaches it from its previous parent) reads back as the immutable tree of the model. *)
+From Oal Require Import Peg Grammar PegProofs GrammarProofs.
+Local Open Scope nat_scope.
+
+Theorem C12_memo_transparent :
+  forall class_ok is_trivia K g toks tag_body,
+  (forall nt, wf_pexp tag_body (g nt)) ->
+  forall n p s acc st r st',
+  wf_pexp tag_body p -> table_ok class_ok is_trivia K g toks tag_body st ->
+  runm class_ok is_trivia K g toks n p s acc st = (r, st') ->
+  table_ok class_ok is_trivia K g toks tag_body st' /\
+  (r <> Fuel -> exists m, run class_ok is_trivia K g toks m p s acc = r).
+Proof. exact memo_transparent. Qed.
+Print Assumptions C12_memo_transparent.
+
+Theorem C12_oal_memo_transparent : forall n toks r st,
+  parse_memo n toks = (r, st) -> r <> Fuel -> exists m, parse_pure m toks = r.
+Proof. exact oal_memo_transparent. Qed.
+Print Assumptions C12_oal_memo_transparent.
+
+Theorem C12_oal_grammar_tags_wf : forall nt, wf_pexp oal_tag_body (oal_grammar nt).
+Proof. exact oal_wf. Qed.
+Print Assumptions C12_oal_grammar_tags_wf.
+
+Theorem C12_result_stable_under_fuel : forall n m toks r,
+  parse_pure n toks = r -> r <> Fuel -> n <= m -> parse_pure m toks = r.
+Proof. exact oal_parse_stable. Qed.
+Print Assumptions C12_result_stable_under_fuel.
+
+Theorem C12_memo_hits_example :
+  let toks := [20; 0; 26; 0; 48; 0; 32; 0; 31; 0; 3; 42; 0; 33; 0; 40]%N in
+  exists t st, parse_memo 200 toks = (Ok 16 [t], st) /\ 0 < hits st /\ parse_pure 200 toks = Ok 16 [t]
+               /\ leaves t = [0; 2; 4; 6; 8; 10; 11; 13; 15].
+Proof. exact oal_parse_example. Qed.
+Print Assumptions C12_memo_hits_example.
